@@ -217,7 +217,12 @@ def base_plan(tier, seed, classes=('pess', 'opt', 'mcs'), opt_scripts=True, thre
     for cls in classes:
         lib = ALLOPT if (cls == 'opt' and opt_scripts) else programs.COMMON_SCRIPTS
         # (quick budgets: the whole check has to stay well below 15 minutes even when it is the first one to pay for Level 2)
-        plan.append((cls, programs.cross2(cls, lib), dict(pb=2 if q else 3, max_exec=(700 if cls == 'opt' else 1200) if q else 60000)))
+        if q and cls == 'opt' and opt_scripts:
+            # quick: every pair of common scripts, and the optimistic scripts against the common ones (not against each other)
+            plan.append((cls, programs.cross2(cls, programs.COMMON_SCRIPTS), dict(pb=2, max_exec=800)))
+            plan.append((cls, programs.cross2(cls, programs.OPT_SCRIPTS, programs.COMMON_SCRIPTS, tag='x2o'), dict(pb=2, max_exec=600)))
+        else:
+            plan.append((cls, programs.cross2(cls, lib), dict(pb=2 if q else 3, max_exec=1200 if q else 60000)))
         if three:
             plan.append((cls, programs.cross3(cls, CONV + ('X',), MODES3, MODES3),
                          dict(pb=1 if q else 2, max_exec=400 if q else 20000)))
